@@ -20,6 +20,7 @@ import (
 	"sort"
 	"strconv"
 	"strings"
+	"syscall"
 	"time"
 
 	"verifharness/internal/batch"
@@ -249,10 +250,27 @@ func run(repo, dir string, seed uint64, cfg runCfg, keep bool) int {
 	}
 	skOps(r, cfg.skOps, ls)
 
-	answers, err := b.RunLines(ls.lines)
-	if err != nil {
-		fmt.Println("ERROR:", err)
-		return 2
+	if p := os.Getenv("C10_DUMP_LINES"); p != "" { // debugging aid: the op lines before the driver sees them
+		os.WriteFile(p, []byte(strings.Join(ls.lines, "\n")+"\n"), 0o644)
+	}
+	// Memory is outside the model: a type-corrupted input can misalign the parse so that garbage is read as a
+	// container count, and BOTH generated readers allocate from the header (`make([]T, n)`, `make(map, n)`, up to
+	// 2^31 elements). The driver runs under an address-space limit so that such an op ends in a quick fatal error
+	// (answer `crash`, driver restarted) instead of swapping for minutes; lines are fed in chunks because
+	// batch.RunLines gives up after 50 crashes.
+	limitMemory(6 << 30)
+	answers := make([]string, 0, len(ls.lines))
+	for start := 0; start < len(ls.lines); start += 3000 {
+		end := start + 3000
+		if end > len(ls.lines) {
+			end = len(ls.lines)
+		}
+		a, err := b.RunLines(ls.lines[start:end])
+		if err != nil {
+			fmt.Println("ERROR:", err)
+			return 2
+		}
+		answers = append(answers, a...)
 	}
 
 	// ---- oracle + correspondence files
@@ -278,6 +296,11 @@ func run(repo, dir string, seed uint64, cfg runCfg, keep bool) int {
 	for i, line := range ls.lines {
 		c := ls.checks[i]
 		ans := answers[i]
+		if ans == "crash" && (c.class == kCorrupt || c.class == "R" || c.class == "RE" || c.class == kErrCls) {
+			// resource exhaustion on a corrupted input (see limitMemory): outside the model, counted
+			out.Count("outside.memory_crash." + strings.Fields(line)[0])
+			continue
+		}
 		if c.toModel {
 			impl := ans
 			if (c.class == kFW || c.class == kFN) && strings.HasPrefix(ans, "ok ") {
@@ -378,6 +401,13 @@ func run(repo, dir string, seed uint64, cfg runCfg, keep bool) int {
 		return 1
 	}
 	return 0
+}
+
+func limitMemory(bytes uint64) {
+	l := syscall.Rlimit{Cur: bytes, Max: bytes}
+	if err := syscall.Setrlimit(syscall.RLIMIT_AS, &l); err != nil {
+		fmt.Println("warning: cannot set RLIMIT_AS:", err)
+	}
 }
 
 func renderAll(p *idlgen.Program) map[string]string { return p.Render() }
@@ -832,6 +862,9 @@ func verdict(ls *lineSet, answers []string, i int, count func(string)) (string, 
 		count("oracle.ok.errclass." + c.note + "." + cls(ans))
 	case kValid, kTrunc, kCorrupt, kDepth:
 		ra := answers[c.pair]
+		if ra == "crash" && c.class == kCorrupt {
+			ra = "err" // the standard Read died of memory exhaustion on this corrupted input
+		}
 		if ans == "panic" {
 			return "FR-panic", "FastRead panics (" + c.class + "/" + c.note + ")", ra
 		}
